@@ -169,8 +169,9 @@ class Contracts:
                 cur = ('loop', m.group(1), m.group(2).strip(), ln)
                 buf = []
             elif s.startswith('@closure '):
-                parts = s.split()
-                cur = ('closure', parts[1], parts[2], ln, {})
+                # `@closure F N` (N-th closure of F) or `@closure F /regex/` (the closure whose text matches; none: skipped)
+                m = re.match(r'@closure\s+(\S+)\s+(.*)$', s)
+                cur = ('closure', m.group(1), m.group(2).strip(), ln, {})
                 buf = []
             elif s.startswith('@nestedfn '):
                 parts = s.split()
@@ -481,7 +482,7 @@ class UnitBuild:
             if dev and k not in verified:
                 continue
             for o in d:
-                if (k, o) not in self.used_closures:
+                if (k, o) not in self.used_closures and not o.startswith('/'):
                     raise ExtractError('closure contract %s #%s matched no closure' % (k, o))
         for k, lst in self.contracts.proofs.items():
             if dev and k not in verified:
@@ -834,10 +835,6 @@ class UnitBuild:
         if cdict:
             cl = [mm for mm in re.finditer(r'(?<=[(,=])\s*\|([^|]*)\|(?!\|)', bm)]
             for k, mm in enumerate(cl, 1):
-                ct = cdict.get(str(k))
-                if ct is None:
-                    continue
-                self.used_closures.add((q, str(k)))
                 # extent of the closure body: up to the unmatched `)` or `,` at depth 0
                 j = mm.end()
                 while j < len(bm):
@@ -848,6 +845,16 @@ class UnitBuild:
                     if ch in ')],;}':
                         break
                     j += 1
+                ct = cdict.get(str(k))
+                key = str(k)
+                if ct is None:
+                    for rk, rv in cdict.items():
+                        if rk.startswith('/') and rk.endswith('/') and (q, rk) not in self.used_closures and re.search(rk[1:-1], bm[mm.start():j]):
+                            ct, key = rv, rk
+                            break
+                if ct is None:
+                    continue
+                self.used_closures.add((q, key))
                 params = ct[2].get('params', mm.group(1))
                 ret = ct[2].get('ret')
                 hdr = '|%s|' % params + (' -> (%s)' % ret if ret else '')
@@ -877,6 +884,7 @@ class UnitBuild:
         # proof blocks.  If one hint of this function can no longer be placed (restructured function), ALL hints of the
         # function are dropped (they refer to each other's ghost variables); the contract clauses are still checked.
         plist = self.contracts.proofs.get(q, [])
+        dropped = set()
         if plist and os.environ.get('VERIF_STRICT_HINTS') != '1' and not it.contract_q:
             def _placeable(where, rx, nth, parm):
                 if where in ('entry',):
@@ -890,11 +898,18 @@ class UnitBuild:
                     hits = [h for h in hits if any(a <= h.start() <= b for a, b in spans)]
                 return len(hits) > nth
             if not all(_placeable(w, rx, nth, parm) for (w, rx, nth, _t, _l, parm) in plist):
-                for idx in range(len(plist)):
-                    self.lost_hints.append((q, idx))
-                    self.used_proofs.add((q, idx))
-                plist = []
+                drop_all = os.environ.get('VERIF_DROP_ALL_HINTS') == '1'
+                # only the hints whose anchor is gone are dropped (all of the function's with VERIF_DROP_ALL_HINTS=1); if a
+                # kept hint refers to a ghost name declared in a dropped one the generated file does not compile and the unit
+                # is undecided
+                for idx, h in enumerate(plist):
+                    if drop_all or not _placeable(h[0], h[1], h[2], h[5]):
+                        self.lost_hints.append((q, idx))
+                        self.used_proofs.add((q, idx))
+                        dropped.add(idx)
         for idx, (where, rx, nth, ptext, pln, parm) in enumerate(plist):
+            if idx in dropped:
+                continue
             if ptext.count('{') != ptext.count('}'):
                 raise ExtractError('unbalanced proof block for ' + q)
             if where == 'loopstart':
